@@ -17,7 +17,7 @@ runner = impl_thr.run_scenario
 def scenarios(rng, n, tier):
     for _ in range(n):
         opts = {"calls": [0, 1, 2, 3, 4], "p_single": 0.5, "p_skip": 0.5, "p_nodelay": 0.12, "p_stop": 0.05,
-                "p_limit": 0.1, "max_jobs": 2, "p_force": 0.1, "p_start": 0.5, "max_polls": 10}
+                "p_limit": 0.1, "max_jobs": 2, "p_maxexec": 0.15, "p_force": 0.1, "p_start": 0.5, "max_polls": 10}
         scn = scen.gen_life(rng, opts)
         # add catch-up bursts: several polls at one instant, far after the due time
         if rng.random() < 0.5:
